@@ -416,4 +416,6 @@ MUTANTS = [
     M("B1-3-flag-skip", ["C08"], (FE, "let any_player_without_entries = player_entries.iter().any(|entries| entries.is_empty());", "let any_player_without_entries = player_entries.iter().skip(1).any(|entries| entries.is_empty());"), base="B1-3"),
     M("B1-3-flag-all", ["C08"], (FE, "let any_player_without_entries = player_entries.iter().any(|entries| entries.is_empty());", "let any_player_without_entries = player_entries.iter().all(|entries| entries.is_empty());"), base="B1-3"),
     M("D1-4-flag-const", ["C08"], (FE, "            has_empty_player,", "            has_empty_player: false,"), base="D1-4"),
+    M("mgb-advance-then-rollover", ["C02"], (FE, "            return Some(showdown);\n        }\n\n        if self.current_river_index < 48 {", "        }\n\n        if self.current_river_index < 48 {")),
+    M("mgb-B1-2-helper-false", ["C02"], (FE, "                self.current_player_indexes[(i + 1)..].fill(0);\n\n                true", "                self.current_player_indexes[(i + 1)..].fill(0);\n\n                false"), base="B1-2"),
 ]
